@@ -34,71 +34,73 @@ Definition tNull := CRep (TPrim PNull) None IAllowed.
 Definition inA := Some (PrNameIn [[65%N]]).
 Definition inB := Some (PrNameIn [[66%N]]).
 
-(* 1. memo leak across alternatives: [5 5] is rejected by HetArray[Name,Int] and by Array(Name)
-      but accepted by their disjunction *)
-Definition w1_c := CRep (TDisj [CRep (THet [tName; tInt]) None IAllowed; CRep (TArr tName None) None IAllowed]) None IAllowed.
-Definition w1_o := OArr [OInt 5; OInt 5].
-Lemma refuted_memo_leak : accepts_nonconforming [] [] w1_o w1_c.
-Proof. refute_acc 3. Qed.
+(* ---- the one class left open on the repaired tree ---- *)
 
-(* 2. a disjunct's own indirection requirement is not applied *)
-Definition w2_c := CRep (TDisj [tName; tInt]) None IReq.
-Lemma refuted_disjunct_attrs : accepts_nonconforming [] [] (OInt 5) w2_c.
-Proof. refute_acc 2. Qed.
-
-(* 3. checks that differ only in their predicate are conflated by the memo *)
-Definition w3_c := CRep (THet [CRep (TPrim PName) inA IAllowed; CRep (TPrim PName) inB IAllowed]) None IAllowed.
-Lemma refuted_memo_ignores_pred : accepts_nonconforming [] [] (OArr [nameA; nameA]) w3_c.
-Proof. refute_acc 2. Qed.
-
-(* 4. predicates on Dict / HetArray / non-Any Array types are never evaluated *)
-Definition w4_c := CRep (TDict [] None) (Some PrNever) IAllowed.
-Lemma refuted_compound_pred : accepts_nonconforming [] [] (ODict []) w4_c.
-Proof. refute_acc 1. Qed.
-Definition w4b_c := CRep (TArr tName None) (Some PrNever) IAllowed.
-Lemma refuted_compound_pred_array : accepts_nonconforming [] [] (OArr [nameA]) w4b_c.
-Proof. refute_acc 1. Qed.
-
-(* 5. dictionary entries (and array elements) whose check has type Any are skipped, predicate and
-      indirection requirement included *)
+(* dictionary and stream entries whose check has type Any are skipped entirely, predicate and
+   indirection requirement included (a unit test of the library pins this behaviour:
+   /Parent [4 0 R] is accepted although the parent check requires a reference) *)
 Definition w5_c := CRep (TDict [DEnt [75%N] (CRep TAny (Some PrNever) IReq) KReq] None) None IAllowed.
 Lemma refuted_any_entry : accepts_nonconforming [] [] (ODict [([75%N], OInt 5)]) w5_c.
 Proof. refute_acc 2. Qed.
-Definition w5b_c := CRep (TArr (CRep TAny (Some PrNever) IAllowed) None) None IAllowed.
-Lemma refuted_any_elem : accepts_nonconforming [] [] (OArr [OInt 5]) w5b_c.
+Definition w5s_c := CRep (TStream [DEnt [75%N] (CRep TAny None IReq) KOpt]) None IAllowed.
+Lemma refuted_any_entry_stream : accepts_nonconforming [] [] (OStream [([75%N], OInt 5)] []) w5s_c.
 Proof. refute_acc 2. Qed.
-
-(* 6. a self-referential object is accepted at any type instead of being null *)
-Lemma refuted_self_reference : accepts_nonconforming [((5%N, 0%N), ORef 5 0)] [] (ORef 5 0) tInt.
+Definition w5x_c := CRep (TDict [] (Some (CRep TAny (Some PrNever) IAllowed, KOpt))) None IAllowed.
+Lemma refuted_any_entry_star : accepts_nonconforming [] [] (ODict [([75%N], OInt 5)]) w5x_c.
 Proof. refute_acc 2. Qed.
-
-(* 7. an already examined alternative counts as failed when an error is pending: Name{B} | Name
-      rejects /A, Name | Name{B} accepts it *)
-Definition w7_c := CRep (TDisj [CRep (TPrim PName) inB IAllowed; tName]) None IAllowed.
-Lemma refuted_examined_alternative : rejects_conforming [] [] nameA w7_c.
-Proof. refute_rej. Qed.
-Definition w7r_c := CRep (TDisj [tName; CRep (TPrim PName) inB IAllowed]) None IAllowed.
-Lemma examined_alternative_order : ck [] [] nameA w7r_c = Accept /\ ck [] [] nameA w7_c = Reject EValue.
-Proof. split; vm_compute; reflexivity. Qed.
-
-(* 8. a named check that resolves to a disjunction is a specification error *)
-Definition w8_tc : tctx := [([110%N; 100%N], (TDisj [tName; tReal], None, IAllowed))].
-Definition w8_c := CRep (TArr (CNamed [110%N; 100%N]) None) None IAllowed.
-Lemma refuted_named_disjunct : rejects_conforming [] w8_tc (OArr [nameA]) w8_c.
-Proof. refute_rej. Qed.
-
-(* 9. stale alternative index: [true (s)] is accepted by HetArray[Name|Real, Name|Real|String] *)
-Definition w9_c := CRep (THet [CRep (TDisj [tName; tReal]) None IAllowed; CRep (TDisj [tName; tReal; tStr]) None IAllowed]) None IAllowed.
-Lemma refuted_stale_index : accepts_nonconforming [] [] (OArr [OBool true; OStr [115%N]]) w9_c.
-Proof. refute_acc 3. Qed.
-Lemma stale_index_control : ck [] [] (OArr [OBool true; nameA]) w9_c = Reject EType.
-Proof. vm_compute; reflexivity. Qed.
-
-(* 10. an undefined reference under a required indirection is not read as null *)
-Lemma refuted_undefined_required : rejects_conforming [] [] (ORef 9 0) (CRep (TPrim PNull) None IReq).
-Proof. refute_rej. Qed.
 
 Lemma C08_statement_false : ~ C08_statement.
 Proof.
-  intro H. destruct refuted_memo_leak as (W & A & N). apply N. apply (H [] [] w1_o w1_c W). exact A.
+  intro H. destruct refuted_any_entry as (W & A & N). apply N.
+  apply (H [] [] (ODict [([75%N], OInt 5)]) w5_c W). exact A.
 Qed.
+
+(* ---- the classes repaired in pdf_type_check.rs: the old witnesses now get the verdict of the
+   declarative reading (they stay in corpus/c08.txt) ---- *)
+Definition agrees (oc : octx) (tc : tctx) (o : obj) (c : chk) (v : bool) : Prop :=
+  wf_spec tc c = true /\ (ck oc tc o c = Accept <-> v = true) /\ conforms_dec opq_default oc tc o c = v.
+Ltac agree := split; [vm_compute; reflexivity | split; [vm_compute; split; intros HH; try reflexivity; try discriminate HH | vm_compute; reflexivity]].
+
+(* 1. memo leak across alternatives *)
+Definition w1_c := CRep (TDisj [CRep (THet [tName; tInt]) None IAllowed; CRep (TArr tName None) None IAllowed]) None IAllowed.
+Definition w1_o := OArr [OInt 5; OInt 5].
+Lemma fixed_memo_leak : agrees [] [] w1_o w1_c false.
+Proof. agree. Qed.
+(* 2. a disjunct's own indirection requirement *)
+Definition w2_c := CRep (TDisj [tName; tInt]) None IReq.
+Lemma fixed_disjunct_attrs : agrees [] [] (OInt 5) w2_c false /\ agrees [((1%N, 0%N), OInt 5)] [] (ORef 1 0) w2_c true.
+Proof. split; agree. Qed.
+(* 3. the memo distinguishes predicates *)
+Definition w3_c := CRep (THet [CRep (TPrim PName) inA IAllowed; CRep (TPrim PName) inB IAllowed]) None IAllowed.
+Lemma fixed_memo_pred : agrees [] [] (OArr [nameA; nameA]) w3_c false /\ agrees [] [] (OArr [nameA; nameB]) w3_c true.
+Proof. split; agree. Qed.
+(* 4. predicates on compound types *)
+Definition w4_c := CRep (TDict [] None) (Some PrNever) IAllowed.
+Definition w4b_c := CRep (TArr tName None) (Some PrNever) IAllowed.
+Lemma fixed_compound_pred : agrees [] [] (ODict []) w4_c false /\ agrees [] [] (OArr [nameA]) w4b_c false.
+Proof. split; agree. Qed.
+(* 5b. Any-typed array elements with attributes *)
+Definition w5b_c := CRep (TArr (CRep TAny (Some PrNever) IAllowed) None) None IAllowed.
+Lemma fixed_any_elem : agrees [] [] (OArr [OInt 5]) w5b_c false.
+Proof. agree. Qed.
+(* 6. a self-referential object is null *)
+Lemma fixed_self_reference :
+  agrees [((5%N, 0%N), ORef 5 0)] [] (ORef 5 0) tInt false /\ agrees [((5%N, 0%N), ORef 5 0)] [] (ORef 5 0) tNull true.
+Proof. split; agree. Qed.
+(* 7. order of alternatives *)
+Definition w7_c := CRep (TDisj [CRep (TPrim PName) inB IAllowed; tName]) None IAllowed.
+Definition w7r_c := CRep (TDisj [tName; CRep (TPrim PName) inB IAllowed]) None IAllowed.
+Lemma fixed_examined_alternative : agrees [] [] nameA w7_c true /\ agrees [] [] nameA w7r_c true.
+Proof. split; agree. Qed.
+(* 8. named disjunct *)
+Definition w8_tc : tctx := [([110%N; 100%N], (TDisj [tName; tReal], None, IAllowed))].
+Definition w8_c := CRep (TArr (CNamed [110%N; 100%N]) None) None IAllowed.
+Lemma fixed_named_disjunct : agrees [] w8_tc (OArr [nameA]) w8_c true /\ agrees [] w8_tc (OArr [OInt 5]) w8_c false.
+Proof. split; agree. Qed.
+(* 9. stale alternative index *)
+Definition w9_c := CRep (THet [CRep (TDisj [tName; tReal]) None IAllowed; CRep (TDisj [tName; tReal; tStr]) None IAllowed]) None IAllowed.
+Lemma fixed_stale_index : agrees [] [] (OArr [OBool true; OStr [115%N]]) w9_c false.
+Proof. agree. Qed.
+(* 10. undefined reference under a required indirection *)
+Lemma fixed_undefined_required : agrees [] [] (ORef 9 0) (CRep (TPrim PNull) None IReq) true.
+Proof. agree. Qed.
